@@ -44,7 +44,7 @@ def extra_jobs(tier, seed):
     return [j for j in cachestep.prog_jobs(tier, seed, {"C12"}, "checks.c12") if set(j["args"]["mnems"]) & {"sb", "sh", "sw"}]
 
 
-BUDGET = {"quick": None, "thorough": 20 * 60}
+BUDGET = {"quick": None, "thorough": 12 * 60}
 
 if __name__ == "__main__":
     from symx import runner
